@@ -124,6 +124,12 @@ def run(chk, ctx) -> None:
         chk.ob('C15.record', f'State.{op}', not problems and n_paths > 0, of.loc,
                'the record is built from what the operation actually did (same player, same amount, same cards) and returned',
                got='; '.join(sorted(set(problems))) or f'{sorted(recs)} on {n_paths} path(s)')
+    # the showing record takes its cards from the verifier's answer (second value): that value is the cards that were tabled - the named
+    # ones, or the whole hand / nothing when none were named - and not the completed hand
+    from .cover import showing_components
+    from .helpers import Refile
+    showing_components(Refile(chk, {'C12.show_flags': 'C15.record', 'C12.show_all': 'C15.record'},
+                              only=lambda r, c: c.endswith(':cards') or r == 'C12.show_all'), ctx)
     chk.floor('C15.record', 17)
 
     _instance_state(chk, ctx)
